@@ -226,25 +226,65 @@ pub fn child_first(idx: usize) -> i32 {
     0
 }
 
+/// The calls the stress pass makes: the 120-call alphabet plus "collision families" of
+/// single-character labels - a few characters of different classes, each shifted by 2^k for
+/// k = 8..16, so that any direct-mapped per-code-point cache of 2^8..2^16 slots sees
+/// conflicting entries in one slot.
+pub fn stress_calls() -> Vec<(Prof, Op3, String)> {
+    let mut v: Vec<(Prof, Op3, String)> = alphabet().into_iter().map(|(p, o, i)| (p, o, INPUTS[i].to_string())).collect();
+    for base in [0xAAu32, 0xAD, 0xB5, 0xE9, 0x5D0, 0x3000, 0x41] {
+        let mut cps = vec![base];
+        for k in 8..=16u32 {
+            cps.push(base + (1 << k));
+            cps.push(base ^ (1 << k));
+        }
+        cps.sort_unstable();
+        cps.dedup();
+        for cp in cps {
+            if let Some(c) = char::from_u32(cp) {
+                v.push((Prof::Ucp, Op3::Prepare, c.to_string()));
+                v.push((Prof::Nick, Op3::Prepare, c.to_string()));
+            }
+        }
+    }
+    v
+}
+
+fn run_static_str(p: Prof, o: Op3, s: &str) -> String {
+    match o {
+        Op3::Prepare => show_out(&prepare_static(p, s)),
+        Op3::Enforce => show_out(&enforce_static(p, s)),
+        Op3::Compare => show_outb(&compare_static(p, s, "ABC")),
+    }
+}
+
+/// child mode `pmc __expect`: every stress call once, single-threaded, in a fresh process
+pub fn child_expect() -> i32 {
+    crate::subject::silence_panics();
+    for (p, o, s) in stress_calls() {
+        println!("{}", run_static_str(p, o, &s).replace('\n', " "));
+    }
+    0
+}
+
 /// child mode: `pmc __stress <seed> <threads> <rounds>` - free-running threads released from a
-/// barrier in a fresh process, every call compared with the fresh-instance result.
+/// barrier in a fresh process; prints every distinct (call, answer) it observed.
 /// SAMPLING, supplementary: it can only add violations (it catches races on state that the
 /// schedule explorer cannot intercept, e.g. `static mut` / `UnsafeCell`).
 pub fn child_stress(seed: u64, nthreads: usize, rounds: usize) -> i32 {
     crate::subject::silence_panics();
-    let alpha = alphabet();
-    // expected results from fresh instances; computed AFTER the race so that the very first
-    // library calls of the process are the racing ones
+    let calls = std::sync::Arc::new(stress_calls());
     let barrier = std::sync::Arc::new(std::sync::Barrier::new(nthreads));
     let mut handles = Vec::new();
     for t in 0..nthreads {
         let b = barrier.clone();
-        let alpha = alpha.clone();
+        let calls = calls.clone();
         handles.push(std::thread::spawn(move || {
             let mut x = seed.wrapping_mul(0x9E3779B97F4A7C15).wrapping_add(t as u64 + 1);
             let mut seen: Vec<(usize, String)> = Vec::new();
+            // half of the threads stay inside the collision families
+            let (lo, hi) = if t % 2 == 1 { (120usize.min(calls.len() - 1), calls.len()) } else { (0, calls.len()) };
             b.wait();
-            // stagger the threads by a few hundred nanoseconds, differently per seed
             for _ in 0..((x >> 7) % 64) {
                 std::hint::spin_loop();
             }
@@ -252,8 +292,9 @@ pub fn child_stress(seed: u64, nthreads: usize, rounds: usize) -> i32 {
                 x ^= x << 13;
                 x ^= x >> 7;
                 x ^= x << 17;
-                let i = (x % alpha.len() as u64) as usize;
-                let got = run_static(alpha[i]);
+                let i = lo + (x % (hi - lo) as u64) as usize;
+                let (p, o, s) = &calls[i];
+                let got = run_static_str(*p, *o, s);
                 if !seen.iter().any(|(j, g)| *j == i && *g == got) {
                     seen.push((i, got));
                 }
@@ -261,21 +302,16 @@ pub fn child_stress(seed: u64, nthreads: usize, rounds: usize) -> i32 {
             seen
         }));
     }
-    let mut all: Vec<(usize, String)> = Vec::new();
     for h in handles {
         match h.join() {
-            Ok(v) => all.extend(v),
-            Err(_) => {
-                println!("MISMATCH thread-panicked");
-                return 0;
+            Ok(v) => {
+                for (i, got) in v {
+                    println!("OBS {} {}", i, got.replace('\n', " "));
+                }
             }
-        }
-    }
-    let ll = long_lived();
-    for (i, got) in all {
-        let exp = run_long_lived(&ll, alpha[i]);
-        if got != exp {
-            println!("MISMATCH {} {} {}", i, exp.replace('\n', " "), got.replace('\n', " "));
+            Err(_) => {
+                println!("OBS-PANIC");
+            }
         }
     }
     println!("DONE");
@@ -288,6 +324,18 @@ pub fn stress(run: &Run, st: &mut Stats) -> serde_json::Value {
         Ok(b) => b,
         Err(_) => return json!(null),
     };
+    let calls = stress_calls();
+    let expected: Vec<String> = match Command::new(&bin).arg("__expect").output() {
+        Ok(o) if o.status.success() => String::from_utf8_lossy(&o.stdout).lines().map(|l| l.to_string()).collect(),
+        _ => {
+            st.caps_hit.push("MACHINERY: stress pass: cannot compute the single-threaded expectations".into());
+            return json!(null);
+        }
+    };
+    if expected.len() != calls.len() {
+        st.caps_hit.push("MACHINERY: stress pass: expectation table has the wrong size".into());
+        return json!(null);
+    }
     let children = run.tier.pick(12usize, 48usize);
     let rounds = run.tier.pick(4000usize, 20000usize);
     let outs: Vec<(u64, String)> = (0..children as u64)
@@ -300,23 +348,29 @@ pub fn stress(run: &Run, st: &mut Stats) -> serde_json::Value {
         })
         .collect();
     let mut mismatches = 0u64;
-    let alpha = alphabet();
     for (seed, text) in &outs {
         st.evaluations += 1;
-        if !text.contains("DONE") {
+        if !text.contains("DONE") || text.contains("OBS-PANIC") {
             st.violation("stress_crash", || Case::new("stress").n(*seed), "the stress child finishes".into(), format!("child produced: {}", text.chars().take(200).collect::<String>()));
         }
-        for line in text.lines().filter(|l| l.starts_with("MISMATCH")) {
-            mismatches += 1;
+        for line in text.lines().filter(|l| l.starts_with("OBS ")) {
             let mut it = line.splitn(3, ' ');
             it.next();
-            let idx = it.next().and_then(|x| x.parse::<usize>().ok());
-            let rest = it.next().unwrap_or("").to_string();
-            let call = idx.and_then(|i| alpha.get(i)).map(|a| format!("{}.{:?}({})", a.0.name(), a.1, show(INPUTS[a.2]))).unwrap_or_else(|| "?".into());
-            st.violation("stress", || Case::new("stress").n(*seed).x(json!(call)), "free-running threads get the fresh-instance result (expected / got follow)".into(), rest);
+            let idx = match it.next().and_then(|x| x.parse::<usize>().ok()) {
+                Some(i) if i < calls.len() => i,
+                _ => continue,
+            };
+            let got = it.next().unwrap_or("");
+            st.traces += 1;
+            if got != expected[idx] {
+                mismatches += 1;
+                let (p, o, s) = &calls[idx];
+                let call = format!("{}.{:?}({})", p.name(), o, show(s));
+                st.violation("stress", || Case::new("stress").n(*seed).x(json!(call)), format!("{} (single-threaded, fresh process)", expected[idx]), got.to_string());
+            }
         }
     }
-    json!({"kind": "SAMPLING (supplementary; adds violations only)", "children": children, "threads_per_child": "2, 5 or 8", "calls_per_thread": rounds, "mismatches": mismatches})
+    json!({"kind": "SAMPLING (supplementary; adds violations only)", "children": children, "threads_per_child": "2, 5 or 8", "calls_per_thread": rounds, "distinct_calls": calls.len(), "mismatches": mismatches})
 }
 
 /// R[a]: result of each alphabet member as the first call in a fresh process
